@@ -404,6 +404,7 @@ func checkFaceDepthLabels(c *Ctx) {
 	// (1) flag and count are written together
 	var countField string
 	flagStores, countStores, lone := 0, 0, ""
+	condCount := ""
 	for _, g := range c.P.Funcs {
 		if pkgOf(g) != "geom" || strings.Contains(c.P.File(g.Pos()), "dcel_debug.go") {
 			continue
@@ -468,6 +469,14 @@ func checkFaceDepthLabels(c *Ctx) {
 						if fa, ok := ia.X.(*ssa.FieldAddr); ok {
 							if sn, fl := fieldOfAddr(fa); sn == "halfEdgeRecord" && fl == countField {
 								countStores++
+								// the increment must not depend on what the edge already carries
+								for _, g0 := range guardsAt(st) {
+									for _, gd := range expandGuard(g0) {
+										if readsHalfEdgeField(gd.Cond, map[string]bool{"srcFace": true, countField: true}, 0) {
+											condCount = c.P.Pos(st.Pos())
+										}
+									}
+								}
 							}
 						}
 					}
@@ -478,6 +487,8 @@ func checkFaceDepthLabels(c *Ctx) {
 	switch {
 	case flagStores == 0:
 		c.Errorf("no store to halfEdgeRecord.srcFace found")
+	case condCount != "":
+		c.Bad(af.Pos(), fn, "members bordering an edge are counted", "the member count is incremented at "+condCount+" only under a test of the edge's own face flag/count: an edge shared (in the same direction) by two overlapping members of one operand is counted once, so the coverage depth across it is wrong and a face that one member's hole leaves uncovered but a sibling covers is labelled outside the operand")
 	case lone != "" || countField == "":
 		c.Bad(af.Pos(), fn, "members bordering an edge are counted", "the half edge is flagged as bordering an input face at "+lone+" without incrementing a per-edge member count: overlapping members of one operand cannot be told apart, so a face in the hole of one member that a sibling covers is labelled outside the operand (UnaryUnion keeps the hole)")
 	case countStores != flagStores:
@@ -604,4 +615,42 @@ func checkFaceDepthLabels(c *Ctx) {
 		return
 	}
 	c.Check(minSel && crossUsed, uf.Pos(), FuncName(uf), "counting starts at the unbounded face", "the face whose cycle has the smallest signed area (shoelace sum) is taken as covered by no member", "unboundedFace does not select the cycle of minimal signed area (shoelace sum with a `<` running minimum)")
+}
+
+// readsHalfEdgeField: the expression reads one of the named fields of a halfEdgeRecord
+func readsHalfEdgeField(v ssa.Value, fields map[string]bool, d int) bool {
+	if d > 6 || v == nil {
+		return false
+	}
+	switch x := v.(type) {
+	case *ssa.UnOp:
+		if x.Op == token.MUL {
+			addr := x.X
+			if ia, ok := addr.(*ssa.IndexAddr); ok {
+				addr = ia.X
+			}
+			if fa, ok := addr.(*ssa.FieldAddr); ok {
+				if sn, fl := fieldOfAddr(fa); sn == "halfEdgeRecord" && fields[fl] {
+					return true
+				}
+			}
+			return false
+		}
+		return readsHalfEdgeField(x.X, fields, d+1)
+	case *ssa.BinOp:
+		return readsHalfEdgeField(x.X, fields, d+1) || readsHalfEdgeField(x.Y, fields, d+1)
+	case *ssa.Index:
+		if f, ok := x.X.(*ssa.Field); ok {
+			if sn, fl := fieldOfField(f); sn == "halfEdgeRecord" && fields[fl] {
+				return true
+			}
+		}
+	case *ssa.Phi:
+		for _, e := range x.Edges {
+			if readsHalfEdgeField(e, fields, d+1) {
+				return true
+			}
+		}
+	}
+	return false
 }
